@@ -21,6 +21,8 @@ from pathlib import Path
 import z3
 
 VERIF = Path(__file__).resolve().parent.parent
+# where evidence/ and replays/ are written (default: /verif); seeded-change trials redirect it to a scratch directory
+OUT = Path(os.environ.get("VERIF_OUT", str(VERIF)))
 sys.path.insert(0, str(VERIF))
 
 from . import builtins_model as bm  # noqa: E402
@@ -177,7 +179,12 @@ def solve_obligation(ob, budget_s, tmpdir, tag):
                 return z3.unknown, sx
         return r, sx
 
-    # attempt 0: fewer assumptions (quantified ones dropped) - sound for 'unsat', and often much easier
+    # attempt 0: string-free abstraction (congruence + linear arithmetic only, see euf.py): sound for 'unsat'
+    from . import euf
+
+    if euf.check_unsat(list(bm.AXIOMS) + list(ob.pc) + [z3.Not(ob.goal)]):
+        return "unsat", "z3-5.1/euf", time.time() - t0, None, None
+    # attempt 1: fewer assumptions (quantified ones dropped) - sound for 'unsat', and often much easier
     from .engine import _has_quantifier
 
     ground = [a for a in list(bm.AXIOMS) + list(ob.pc) if not _has_quantifier(a)]
@@ -368,7 +375,7 @@ sys.exit(1)
 
 
 def write_replay(prop, key, contract: Contract, rec):
-    d = VERIF / "replays" / prop
+    d = OUT / "replays" / prop
     d.mkdir(parents=True, exist_ok=True)
     fn = d / (re.sub(r"[^\w.\-\[\]#]+", "_", rec["name"]) + ".py")
     def abstract(v):
@@ -480,6 +487,8 @@ def main(argv=None):
     samples = []
     solver_time = 0.0
     functions = []
+    contract_assumptions = set()
+    lemma_schemas = set()
     assumed_trusted = set()
     inlined = set()
     notes = set()
@@ -489,6 +498,14 @@ def main(argv=None):
                           "source_digest": out["digest"], "seconds": round(out["seconds"], 2)})
         inlined.update(out["inlined"])
         notes.update(out["notes"])
+        cdef = db.contracts.get(key)
+        if cdef is not None:
+            import ast as _ast
+
+            for a in cdef.assumes:
+                contract_assumptions.add(f"assumed in {key}: {a}")
+            for h in cdef.hints:
+                lemma_schemas.add(_ast.parse(h, mode="eval").body.func.id)
         for callee in out["assumed"]:
             cc = db.get(callee)
             if cc is not None and cc.trusted:
@@ -612,12 +629,14 @@ def main(argv=None):
             "engine_notes": sorted(notes),
             "builtin_model_crosscheck": crosscheck,
         },
-        "assumptions": sorted(set(meta.get("assumptions", []))),
+        "assumptions": sorted(set(meta.get("assumptions", [])) | contract_assumptions
+                              | {f"lemma schema about CPython builtins instantiated as a hint (trusted; sampled against CPython by tools/crosscheck.py): {n}"
+                                 for n in lemma_schemas}),
         "wall_s": round(wall, 2),
         "violations": len(violations),
     }
-    (VERIF / "evidence").mkdir(exist_ok=True)
-    (VERIF / "evidence" / f"{prop}.json").write_text(json.dumps(evidence, indent=1, default=str))
+    (OUT / "evidence").mkdir(parents=True, exist_ok=True)
+    (OUT / "evidence" / f"{prop}.json").write_text(json.dumps(evidence, indent=1, default=str))
     for ln in lines:
         print(ln)
     print(f"[{prop} {tier}] functions={len(functions)} obligations={total} discharged={discharged} refuted={len(refuted)} "
